@@ -283,7 +283,7 @@ class DoublyLinkedList(Iterable[_T]):
             False will move last element to the beginning of the list.
         """
 
-        if self.head is None or self.head == self.tail:
+        if self.head is None or self.head is self.tail:
             return
 
         if front_to_back:
@@ -309,7 +309,7 @@ class DoublyLinkedList(Iterable[_T]):
         :param after: node after this node will be inserted
         """
 
-        if node == after:
+        if node is after:
             return
 
         self.remove(node)
